@@ -210,6 +210,9 @@ pub fn groups() -> Vec<(&'static str, Vec<Spec>)> {
         ("spellings-2", vec![Spec::Parser { text: "Q9s".into() }, Spec::Parser { text: "9Qo:0.25".into() }, Spec::Parser { text: "9Qs".into() }]),
         // an evaluator that fails (board with four cards) beside sound ones: its failure must stay its own
         ("after-a-failure", vec![Spec::BadBoard { cards: vec![8, 26, 49, 3] }, eval_spec(f1, &[r1], (0, 1, 0, 3), 1), eval_spec(f2, &[r1], (0, 1, 0, 3), 1)]),
+        // same flop, same number of players, same scope - only the ranges differ (a cache recognising a job by anything
+        // but its contents hands the second one the first one's ranges)
+        ("same-flop-same-count", vec![eval_spec(f1, &[r1, r2], (0, 1, 0, 6), 1), eval_spec(f1, &[r3, r2], (0, 1, 0, 6), 1), eval_spec(f1, &[r2, r1], (0, 1, 0, 6), 1)]),
         // three evaluators, 6 operations each
         ("three-evaluators", vec![eval_spec(f1, &[r1], (0, 1, 0, 4), 1), eval_spec(f1, &[r1], (0, 1, 0, 4), 1), eval_spec(f2, &[r3], (47, 48, 48, 49), 3)]),
         // four evaluators, 3-4 operations each
